@@ -143,9 +143,14 @@ class Paths:
         w = self._w_of_place(p)
         if w is None:
             return None
-        # payload of an enum-typed parameter (`FatValue::Data(n)`): a named input
-        if 1 <= pk[0] <= self.fn.argc and len(pk[1]) == 2 and pk[1][0][0] == 'dc' and pk[1][1][0] == 'f':
-            nm = '%s.%s.%s' % (self.fn.locals[pk[0]].get('name') or 'p%d' % pk[0], pk[1][0][1], pk[1][1][1])
+        # payload of an enum-typed parameter (`FatValue::Data(n)`): a named input - also through a plain moved copy of the
+        # parameter (the argument of a helper that was inlined)
+        base_l = pk[0]
+        for _ in range(4):
+            if ('alias', base_l) in env:
+                base_l = env[('alias', base_l)]
+        if 1 <= base_l <= self.fn.argc and len(pk[1]) == 2 and pk[1][0][0] == 'dc' and pk[1][1][0] == 'f':
+            nm = '%s.%s.%s' % (self.fn.locals[base_l].get('name') or 'p%d' % base_l, pk[1][0][1], pk[1][1][1])
             return input_bits(nm, w, self.param_widths.get(nm))
         # a field read through self / a struct parameter: a named input
         names = [e.get('n') for e in p['p'] if 'f' in e and e.get('n') is not None]
@@ -183,6 +188,8 @@ class Paths:
             if val is None and p is not None:
                 # non-integer move: carry a payload / tuple parts along
                 src = place_key(p)
+                if not src[1] and not lk[1]:
+                    env[('alias', lk[0])] = src[0]
                 for k2 in [k2 for k2 in env if isinstance(k2, tuple) and k2[0] == 'payload' and k2[1] == src]:
                     env[('payload', lk)] = env[k2]
                 for k2 in [k2 for k2 in list(env) if isinstance(k2[0], int) and k2[0] == src[0] and k2[1][:len(src[1])] == src[1] and k2 != src]:
